@@ -324,6 +324,7 @@ pub fn scale(n: u64, budget: f64) -> u64 {
 
 pub fn run_check(chk: &dyn Check, tier: Tier, seed: u64, budget: f64, max_s: f64) -> RunResult {
     install_panic_hook();
+    crate::capi::probe_orders();
     let t0 = Instant::now();
     let phases = chk.phases(tier, budget);
     let nthreads = chk.threads().max(1);
